@@ -149,10 +149,39 @@ Definition chk (c : nat * nat * option nat * nat * nat) : bool :=
   for i in bad[:5]:
     chk.violation('correspondence', 'Model device_batch/pad_shard and flax pad_shard_unpad disagree on the padded shape', {'case': pad[i], 'observed': padres[i]})
   chk.cov['traces_validated_against_impl'] += len(dcoq)
+  scoq = []
   for c, o in zip(scan, sres):
     chk.count({'scan': c}, len(c['axis']) >= 2)
+    raw = o.get('ok', {}).pop('_raw', None)
     if 'err' in o or not (o['ok']['carry_ok'] and o['ok']['ys_ok']):
       chk.violation('oracle', 'scan_in_dim differs from the nested Python loop over the chosen axes', {'case': c, 'observed': o})
+    elif raw is not None:
+      depth = len(c['axis'])
+      def cx(t, d):
+        return ('(NLeaf %s)' % cZ(t[0])) if d == 0 else '(NNode %s)' % clist([cx(k, d - 1) for k in t])
+      def cy(t, d):
+        return ('(NLeaf %s)' % cZ(t[1])) if d == 0 else '(NNode %s)' % clist([cy(k, d - 1) for k in t])
+      def uniform(t, d):
+        return t[2] if d == 0 else all(uniform(k, d - 1) for k in t)
+      if not uniform(raw['nest'], depth):
+        chk.violation('oracle', 'scan_in_dim: the body\'s output for one step was not written to one slice of the result', {'case': c})
+      else:
+        scoq.append(cpair(cx(raw['nest'], depth), cy(raw['nest'], depth), cZ(raw['cfin'])))
+  shdr = 'From Coq Require Import ZArith.\nFrom Flaxm Require Import Lib.Harness Model.LinenLoop Model.ScanNd.\nOpen Scope Z_scope.\n' + """
+Definition sbody (c x : Z) : Z * Z := let u := c * 3 + x in (u mod 1000003, u mod 7).
+Fixpoint nest_beq (a b : nest Z) : bool :=
+  match a, b with
+  | NLeaf x, NLeaf y => Z.eqb x y
+  | NNode k1, NNode k2 => (fix go l1 l2 := match l1, l2 with [] , [] => true | x :: r1, y :: r2 => nest_beq x y && go r1 r2 | _, _ => false end) k1 k2
+  | _, _ => false
+  end.
+Definition chk (c : nest Z * nest Z * Z) : bool :=
+  let '(xs, ys, cfin) := c in let r := scan_nd Z Z Z sbody 0 xs in Z.eqb (fst r) cfin && nest_beq (snd r) ys.
+"""
+  bad = common.coq_mismatches('c20_scan', shdr, scoq, 'chk', shard=300)
+  for i in bad[:5]:
+    chk.violation('correspondence', 'Model/ScanNd.v scan_nd and flax.jax_utils.scan_in_dim disagree on the final carry or the stacked outputs (C20_scan_nd_is_loop no longer transfers)', {'row': scoq[i][:400]})
+  chk.cov['traces_validated_against_impl'] = chk.cov.get('traces_validated_against_impl', 0) + len(scoq)
   rcoq = []
   for c, o in zip(reshape, reres):
     chk.count({'reshape': c}, c['d'] > 1)
